@@ -106,7 +106,7 @@ def run(ctx):
                 embedded = text
             # offsets are relative to the text embedded in the MIR (universal newlines: \r\n read as \n)
             eol = 1
-            glines = glist([gstr(l) for l in embedded.splitlines()])
+            glines = glist([gstr(l) for l in embedded.split("\n")])      # Python's lines: only \n (after universal-newline reading) ends a line
             gitems = glist([f"{{| ri_label := {gstr(lb)}; ri_candidates := {glist([gz(c) for c in cs])}; ri_file := {gstr(r[0])}; "
                             f"ri_line := {gz(r[1])}; ri_off := {gz(r[2])}; ri_len := {gz(r[3])} |}}" for lb, cs, r in items])
             cv = ("From Coq Require Import ZArith List String.\nFrom NadaV.Model Require Import SourceRef.\n"
